@@ -408,6 +408,13 @@ class Run:
                 tgt = [l for l in listeners if l.registered]
                 if tgt:
                     tgt[op[1] % len(tgt)].armed = (op[2], op[3], op[4])
+            # the engine purges every 10 s: nothing may linger more than one purge period past its expiry
+            now_q = w.now_ms
+            for store in zc.cache.cache.values():
+                for r in store:
+                    if r.created + 1000 * r.ttl + 10_001 < now_q:
+                        self.fail('purge-overdue', 'record expired for more than one purge period is still cached',
+                                  {'ident': ident_of_record(r), 'expired_ms_ago': now_q - (r.created + 1000 * r.ttl)})
             if len(self.viol) >= 4:
                 break
 
